@@ -116,6 +116,17 @@ def sub_names(ctx, shard, n):
         ctx.enumerate("name", check_name, long)
 
 
+def sub_names_blocks(ctx, shard, n):
+    """block spellings 'L' + k sharps + m flats (and the mirror image, and k alternating pairs) with k, m up to 3000"""
+    sizes = [(12, 14), (13, 12), (100, 99), (500, 498), (1502, 1500), (3000, 2999), (2000, 2000), (2999, 3000)]
+    names = []
+    for letter in ("C", "F", "B"):
+        for k, m in sizes:
+            names += [letter + "#" * k + "b" * m, letter + "b" * k + "#" * m, letter + "#b" * min(k, m) + "#" * abs(k - m)]
+    ctx.exhaustive("names: block spellings with up to 3000 sharps and flats", "3 letters x 8 sizes x 3 shapes", len(names))
+    ctx.enumerate("name", check_name, names)
+
+
 def sub_names_long(ctx, shard, n):
     from vlib.strats import any_accidentals, lopsided_accidentals
     strat = st.builds(lambda l, a: l + a, st.sampled_from(T.LETTERS), st.text(alphabet="#b", min_size=9, max_size=60) | lopsided_accidentals(60) | lopsided_accidentals(400)
@@ -178,6 +189,7 @@ def sub_fuzz(ctx, shard, n):
 SUBS = [
     Sub("fuzz", sub_fuzz, quick=1, thorough=4),
     Sub("names", sub_names, quick=4, thorough=16),
+    Sub("names_blocks", sub_names_blocks),
     Sub("names_long", sub_names_long, quick=1, thorough=4),
     Sub("pairs", sub_pairs, quick=4, thorough=16),
     Sub("ints", sub_ints),
